@@ -40,6 +40,11 @@ FIXED = [
     ("0:ff-1:t", "qq", "u", "s0_v00.s1_v01.v10", ""),
     ("0:ti-1:ft", "qi", "0", "s0.s1_v00_v10.v11", ""),
     ("0:mn-1:tm", "iq", "0", "s0.s1_k.v01.k_c01.v10.a", ""),
+    # the futex word changes: wakers store a new value, then wake; waiters wait for the old / the current value
+    ("0:m-1:d", "iq", "u", "s0.s1_u.a", ""),
+    ("0:md-0:dm", "ii", "u", "s0_s1_u.k.u.a", ""),
+    ("0:d-1:d-0:m", "qi", "u", "s0.s1_u.a_s2.u.k", ""),
+    ("0:dd-1:m", "ii", "u", "s0_u.a_s1.u.a_c00", ""),
 ]
 # executions whose only purpose is to show the mismatch path (kept apart: every one of them trips the known slot leak)
 MISMATCH = [
@@ -61,7 +66,7 @@ EXPECT = {"h3a": "WakeOneWakesOneIfAnyNotCancelling/cancel_of_other_waiter_overl
           "h3b": "WakeAllWakesAll/slot_reuse_during_wake_all",
           "h3c": "NoSlotLeak/mismatching_wait_keeps_slot"}
 ASIS_CLAUSE = {"h3a": "WakeOneWakesOneIfAnyNotCancelling", "h3b": "WakeAllWakesAll", "h3c": "NoSlotLeak"}
-PB = [("0:m-0:m", "ii", "u", "s0.s1_k_c10", "")]
+PB = [("0:m-0:m", "ii", "u", "s0.s1_k_c10", ""), ("0:m", "ii", "u", "s0_u.a", ""), ("0:d-0:m", "ii", "u", "s0.s1_u.k", "")]
 ALL_INV = "ResumedExactlyOncePerSuspension NeverLeftSuspendedAfterWakeCondition WakeOneWakesOneIfAnyNotCancelling WakeAllWakesAll MismatchDoesNotSuspend ResumedOnBoundExecutor NoSlotLeak"
 
 
@@ -177,7 +182,7 @@ def run(pid, tier, seed, replay=None):
     groups.append(("rand", e))
     for k, v in s.items():
         status[k] = status.get(k, 0) + v
-    e, s = record(PB, (1, 2), "pb", "pb", extra=["--pb-bound", "1" if tier == "quick" else "2", "--max-execs", "60" if tier == "quick" else "6000"])
+    e, s = record(PB, (1, 2), "pb", "pb", extra=["--pb-bound", "1" if tier == "quick" else "2", "--max-execs", "100" if tier == "quick" else "6000"])
     groups.append(("pb", e))
     for k, v in s.items():
         if not k.startswith("_"):
@@ -235,10 +240,11 @@ def run(pid, tier, seed, replay=None):
         jobs.append(("cofutex_small_repaired", "MC_CoFutex.tla", os.path.join(mc, "CoFutex_small_fixed_sc.cfg"), None, ""))
     else:
         jobs.append(("cofutex_quick_repaired", "MC_CoFutex.tla", os.path.join(mc, "CoFutex_quick_fixed_sc.cfg"), None, ""))
+        jobs.append(("cofutex_valq_repaired", "MC_CoFutex.tla", os.path.join(mc, "CoFutex_valq_fixed_sc.cfg"), None, ""))
     jobs.append(("cancel_quick", "MC_Cancel.tla", os.path.join(mc, "Cancel_quick_sc.cfg"), None, ""))
     jobs.append(("cotask_quick", "MC_CoTask.tla", os.path.join(mc, "CoTask_quick_sc.cfg"), None, ""))
     if tier == "thorough":
-        for n in ("3w", "reuse", "2k2c"):
+        for n in ("3w", "reuse", "2k2c", "val"):
             jobs.append(("cofutex_%s_repaired" % n, "MC_CoFutex.tla", os.path.join(mc, "CoFutex_%s_fixed_sc.cfg" % n), None, ""))
         jobs.append(("cancel_2c", "MC_Cancel.tla", os.path.join(mc, "Cancel_2c_sc.cfg"), None, ""))
         jobs.append(("cotask_3r", "MC_CoTask.tla", os.path.join(mc, "CoTask_3r_sc.cfg"), None, ""))
